@@ -161,14 +161,22 @@ def r17a(ctx):
     calls = [n for n in ast.walk(fn) if isinstance(n, ast.Call) and dotted(n.func) == "new_dd_object"]
     if not calls:
         raise AnalysisError("anchor vanished: new_dd_object call in to_legacy_dataframe")
+    tdefs = flow.Defs(fn)
     for i, c in enumerate(calls):
         roots = []
+        xargs = []
         for a in c.args:
+            # a temporary holding `df.dask` is looked through (one level), the expression variable itself is not
+            if isinstance(a, ast.Name):
+                v = tdefs.single_value(a.id, c)
+                if isinstance(v, ast.Attribute):
+                    a = v
+            xargs.append(a)
             r = a
             while isinstance(r, ast.Attribute):
                 r = r.value
             roots.append(r.id if isinstance(r, ast.Name) else ast.unparse(r))
-        attrs = [a.attr if isinstance(a, ast.Attribute) else None for a in c.args]
+        attrs = [a.attr if isinstance(a, ast.Attribute) else None for a in xargs]
         good = len(set(roots)) == 1 and attrs[:4] == ["dask", "_name", "_meta", "divisions"]
         (ctx.ok if good else ctx.bad)(f"_collection.FrameBase.to_legacy_dataframe:new_dd_object#{i}", fb.module.loc(c), f"all four from `{roots[0]}`" if good else f"new_dd_object({', '.join(ast.unparse(a) for a in c.args)}) mixes {sorted(set(roots))}: graph keys, name, meta and divisions must describe the same (optimized) expression")
     pp = model.method(fb, "__dask_postpersist__", own=True).node
@@ -177,20 +185,34 @@ def r17a(ctx):
     if not rets:
         raise AnalysisError("anchor changed: __dask_postpersist__ return")
     t = rets[0]
-    args = t.elts[1] if len(t.elts) > 1 and isinstance(t.elts[1], ast.Tuple) else None
-    if args is None:
+    ret_stmt = next(r for r in ast.walk(pp) if isinstance(r, ast.Return) and r.value is t)
+    args = t.elts[1] if len(t.elts) > 1 else None
+    if isinstance(args, ast.Name):
+        args = defs.single_value(args.id, ret_stmt)
+    if not isinstance(args, ast.Tuple):
         raise AnalysisError("anchor changed: __dask_postpersist__ argument tuple")
-    roots = set()
-    for a in args.elts:
-        for n in ast.walk(a):
-            if isinstance(n, ast.Name) and n.id not in ("key_split",):
-                roots.add(n.id)
-    lowered = False
-    if len(roots) == 1:
-        v = defs.single_value(next(iter(roots)), t)
-        lowered = v is not None and "lower_completely()" in closure_text(model, fb.module, fb, v, depth=1)
-    good = len(roots) == 1 and lowered
-    (ctx.ok if good else ctx.bad)("_collection.FrameBase.__dask_postpersist__", fb.module.loc(t), "meta, divisions, keys and name all come from the lowered expression" if good else f"the rebuild arguments come from {sorted(roots)} which is not the lowered expression (lower_completely()): __dask_graph__/__dask_keys__ describe the lowered plan, so the FromGraph rebuilt after dask.persist() aliases keys the persisted graph does not contain")
+    # every rebuild argument, with locals replaced by their definitions, must be computed from ONE lowered expression
+    elts_x = []
+    for a_ in args.elts:
+        x = a_
+        for _ in range(3):  # temporaries of temporaries
+            x2 = defs.expand(x, at=ret_stmt, depth=1)
+            if ast.unparse(x2) == ast.unparse(x):
+                break
+            x = x2
+        elts_x.append(defs.expand(a_, at=ret_stmt))
+    srcs = []
+    for x in elts_x:
+        low = {ast.unparse(c) for c in ast.walk(x) if isinstance(c, ast.Call) and isinstance(c.func, ast.Attribute) and c.func.attr == "lower_completely"}
+        if not low:
+            # one level of helper inlining (`self._lowered_collection()`)
+            low = {"<helper>"} if "lower_completely()" in closure_text(model, fb.module, fb, x, depth=1) else set()
+        srcs.append(low)
+    lowered = all(srcs) and len({frozenset(x) for x in srcs}) == 1
+    roots = sorted({n.id for x in args.elts for n in ast.walk(x) if isinstance(n, ast.Name) and n.id != "key_split"})
+    good = lowered
+    (ctx.ok if good else ctx.bad)("_collection.FrameBase.__dask_postpersist__", fb.module.loc(t), "meta, divisions, keys and name all come from the lowered expression" if good else f"the rebuild arguments come from {roots} which is not (one) lowered expression (lower_completely()): __dask_graph__/__dask_keys__ describe the lowered plan, so the FromGraph rebuilt after dask.persist() aliases keys the persisted graph does not contain")
+    args = ast.Tuple(elts=elts_x, ctx=ast.Load())
     order = [ast.unparse(a) for a in args.elts]
     fg = model.cls("FromGraph")
     params = model.parameters(fg)
